@@ -6,9 +6,9 @@
 (*   for the standard configurations (C15)                                    *)
 EXTENDS HtmlConfigs
 
-T(s) == [k |-> "text", name |-> "", attrs |-> {}, kids |-> <<>>, text |-> s]
+T(s) == [k |-> "text", name |-> "", attrs |-> {}, kids |-> <<>>, text |-> s, foreign |-> FALSE]
 O == [k |-> "other", name |-> "", attrs |-> {}, kids |-> <<>>, text |-> <<>>]
-E(name, attrs, kids) == [k |-> "el", name |-> name, attrs |-> attrs, kids |-> kids, text |-> <<>>]
+E(name, attrs, kids) == [k |-> "el", name |-> name, attrs |-> attrs, kids |-> kids, text |-> <<>>, foreign |-> FALSE]
 A(n, v) == [n |-> n, v |-> v, ns |-> FALSE]
 JS == <<106,97,118,97,115,99,114,105,112,116,58,120>>          \* javascript:x
 HTTPU == <<104,116,116,112,58,47,47,120>>                      \* http://x
